@@ -86,10 +86,12 @@ Section C11.
   Proof. exact (StyleDeclFacts.getProperties_name_filter norm). Qed.
 
   (* ---- setting replaces the effective entry in place, or appends; nothing else changes *)
+  (* `Accepted a` : the Property constructor parsed the name (nok) and neither spelling is empty;
+     the entry is looked up under the name it is STORED with (norm (plit a)), whatever the spelling *)
   Theorem set_replaces_effective_or_appends : forall raising a v pr im b,
-    Inv norm b -> nok a = true -> raw a <> [] -> prio_imp raising pr = Some im ->
+    Inv norm b -> Accepted a -> prio_imp raising pr = Some im ->
     setProperty norm false raising (ByName a (VOk v) pr) true true b =
-    Done (match effective (by_name (norm (raw a))) b with
+    Done (match effective (by_name (norm (plit a))) b with
           | Some (i, _) => replace_at i v im b
           | None => b ++ [IProp (new_prop norm a v im)]
           end) RNone.
@@ -140,16 +142,70 @@ Section C11.
   Proof. exact (StyleDeclFacts.readonly_unchanged norm attrs settable). Qed.
 
   (* ---- blocks without duplicate names *)
+  (* no WfName side condition any more (fix C11-set-name-as-stored): every accepted spelling *)
   Theorem nodup_preserved : forall raising a v pr im b,
-    Inv norm b -> WfName norm a -> raw a <> [] -> prio_imp raising pr = Some im -> NoDupNames b ->
+    Inv norm b -> Accepted a -> prio_imp raising pr = Some im -> NoDupNames b ->
     NoDupNames (after b (setProperty norm false raising (ByName a (VOk v) pr) true true b)).
   Proof. exact (StyleDeclFacts.nodup_preserved norm). Qed.
 
-  Theorem set_then_get : forall raising a v pr im b,
-    Inv norm b -> WfName norm a -> raw a <> [] -> prio_imp raising pr = Some im -> NoDupNames b ->
+  (* value and priority read back through every spelling r that normalises to the stored name *)
+  Theorem set_then_get : forall raising a v pr im b r,
+    Inv norm b -> Accepted a -> prio_imp raising pr = Some im -> NoDupNames b ->
+    norm r = norm (plit a) ->
+    let b' := after b (setProperty norm false raising (ByName a (VOk v) pr) true true b) in
+    getPropertyValue norm r true b' = RVal v /\ getPropertyPriority norm r true b' = im.
+  Proof. exact (StyleDeclFacts.set_then_get norm). Qed.
+
+  Theorem set_then_get_stored : forall raising a v pr im b,
+    Inv norm b -> Accepted a -> prio_imp raising pr = Some im -> NoDupNames b ->
+    let b' := after b (setProperty norm false raising (ByName a (VOk v) pr) true true b) in
+    getPropertyValue norm (plit a) true b' = RVal v /\ getPropertyPriority norm (plit a) true b' = im.
+  Proof. exact (StyleDeclFacts.set_then_get_stored norm). Qed.
+
+  Theorem set_then_get_same_spelling : forall raising a v pr im b,
+    Inv norm b -> Accepted a -> WfName norm a -> prio_imp raising pr = Some im -> NoDupNames b ->
     let b' := after b (setProperty norm false raising (ByName a (VOk v) pr) true true b) in
     getPropertyValue norm (raw a) true b' = RVal v /\ getPropertyPriority norm (raw a) true b' = im.
-  Proof. exact (StyleDeclFacts.set_then_get norm). Qed.
+  Proof. exact (StyleDeclFacts.set_then_get_same_spelling norm). Qed.
+
+  (* ---- literal-name mode (normalize=False): the full specification *)
+  Theorem get_literal_is_effective : forall nm b,
+    getProperty norm nm false b = effective (by_lit nm) b.
+  Proof. exact (StyleDeclFacts.get_literal_is_effective norm). Qed.
+
+  Theorem remove_literal_exact : forall nm b,
+    removeProperty norm false nm false b =
+    Done (filter (fun it => match it with IProp p => negb (eqs (lit p) nm) | _ => true end) b)
+         (getPropertyValue norm nm false b).
+  Proof. exact (StyleDeclFacts.remove_literal_exact norm). Qed.
+
+  Theorem last_entry_is_last : forall f b i p,
+    last_entry f b = Some (i, p) -> nth_error b i = Some (IProp p) /\ f p = true.
+  Proof. exact last_entry_sound. Qed.
+
+  Theorem set_literal_spec : forall raising a v pr im b,
+    Inv norm b -> Accepted a -> prio_imp raising pr = Some im ->
+    setProperty norm false raising (ByName a (VOk v) pr) false true b =
+    Done (match last_entry (fun p => eqs (lit p) (set_name norm a)) b with
+          | Some (i, _) => replace_at i v im b
+          | None => b ++ [IProp (new_prop norm a v im)]
+          end) RNone.
+  Proof. exact (StyleDeclFacts.set_literal_spec norm). Qed.
+
+  Theorem set_then_get_literal : forall raising a v pr im b,
+    Inv norm b -> Accepted a -> set_name norm a = plit a -> prio_imp raising pr = Some im -> NoDupLits b ->
+    let b' := after b (setProperty norm false raising (ByName a (VOk v) pr) false true b) in
+    NoDupLits b' /\ getPropertyValue norm (plit a) false b' = RVal v
+    /\ getPropertyPriority norm (plit a) false b' = im.
+  Proof. exact (StyleDeclFacts.set_then_get_literal norm). Qed.
+
+  Theorem nodup_names_lits : forall b, Inv norm b -> NoDupNames b -> NoDupLits b.
+  Proof. exact (StyleDeclFacts.NoDupNames_Lits norm). Qed.
+
+  Theorem literal_eq_normalized : forall nm b,
+    Inv norm b -> (forall p, In (IProp p) b -> name p = norm nm -> lit p = nm) ->
+    getProperty norm nm false b = getProperty norm nm true b.
+  Proof. exact (StyleDeclFacts.literal_eq_normalized norm). Qed.
 
   (* ---- attribute access forwards to the name bound in the table *)
   Theorem attr_is_alias : forall dom c,
@@ -194,18 +250,34 @@ Proof.
   split; [exact H1|]. split; [exact H2|]. vm_compute. discriminate.
 Qed.
 
-(* F (false without WfName):  NoDupNames is preserved / the value reads back for every spelling the
-   Property constructor accepts.  Refuted for ' color ' (open finding C11-name-whitespace-spelling). *)
-Theorem set_then_get_spelling_refuted :
+(* Look-ups are by norm(spelling) (the API contract: only case and simple escapes are equivalent).  A spelling
+   the Property constructor accepts but that does not normalise to the stored name (' color ') is stored as
+   `color`, replaces `color` (no duplicate) and reads back through `color`, not through ' color ' itself:
+   the hypothesis  norm r = norm (plit a)  of set_then_get is necessary for the reading spelling. *)
+Theorem set_then_get_reading_spelling_refuted :
   exists b a v,
-    Inv norm_i b /\ NoDupNames b /\ nok a = true /\
-    ~ NoDupNames (after b (setProperty norm_i false true (ByName a (VOk v) PNone) true true b)) /\
-    getPropertyValue norm_i (raw a) true
-      (after b (setProperty norm_i false true (ByName a (VOk v) PNone) true true b)) = REmpty.
+    Inv norm_i b /\ NoDupNames b /\ Accepted a /\
+    let b' := after b (setProperty norm_i false true (ByName a (VOk v) PNone) true true b) in
+    NoDupNames b' /\ getPropertyValue norm_i (plit a) true b' = RVal v
+    /\ getPropertyValue norm_i (raw a) true b' = REmpty.
 Proof.
   exists [IProp (mkProp (s "color") (s "color") 1%N false)], nm_ws, 2%N.
   destruct whitespace_spelling_witness as (_ & H2 & H3 & H4).
-  split; [repeat constructor|]. split; [exact H2|]. split; [reflexivity|]. split; [exact H3|exact H4].
+  split; [repeat constructor|]. split; [repeat constructor; simpl; tauto|].
+  split; [repeat split; discriminate|].
+  cbv zeta. rewrite H2. split; [repeat constructor; simpl; tauto|]. split; vm_compute; reflexivity.
+Qed.
+
+(* F (false):  a generated accessor may look its name up literally (normalize=False).
+   Refuted: on `c\olor: v` the attribute `color` (normalised look-up) reads v and `del` removes it, a literal
+   look-up of `color` reads '' and removes nothing -- so _getP/_delP must normalise (seed C11-2). *)
+Theorem alias_literal_lookup_refuted :
+  exists b, Inv norm_i b /\
+    get_attr norm_i attrs_i (s "color") b <> Some (getPropertyValue norm_i (s "color") false b) /\
+    after b (step_i false (ODelAttr (s "color")) b) <> after b (removeProperty norm_i false (s "color") false b).
+Proof.
+  exists blk_esc. destruct alias_needs_normalized_lookup_witness as (H1 & H2 & H3 & H4 & H5).
+  split; [exact H1|]. rewrite H2, H3, H4, H5. split; discriminate.
 Qed.
 
 (* keys() reports normalised names; helper.normalize is not idempotent, so a reported name used as an
@@ -256,11 +328,21 @@ Print Assumptions step_never_crashes.
 Print Assumptions readonly_unchanged.
 Print Assumptions nodup_preserved.
 Print Assumptions set_then_get.
+Print Assumptions set_then_get_stored.
+Print Assumptions set_then_get_same_spelling.
 Print Assumptions attr_is_alias.
+Print Assumptions get_literal_is_effective.
+Print Assumptions remove_literal_exact.
+Print Assumptions last_entry_is_last.
+Print Assumptions set_literal_spec.
+Print Assumptions set_then_get_literal.
+Print Assumptions nodup_names_lits.
+Print Assumptions literal_eq_normalized.
+Print Assumptions alias_literal_lookup_refuted.
 Print Assumptions camel_alias.
 Print Assumptions toDOM_matches_code.
 Print Assumptions known_names_are_plain.
 Print Assumptions set_then_get_dup_refuted.
-Print Assumptions set_then_get_spelling_refuted.
+Print Assumptions set_then_get_reading_spelling_refuted.
 Print Assumptions normalize_not_idempotent.
 Print Assumptions set_literal_replaces_last.
